@@ -111,6 +111,95 @@ func c14Runtime(c *rt.Ctx, sub int, k int) {
 	c.Eval(1)
 }
 
+// c14HeapWindow: descriptors created at run time live on the Go heap, far above the window of
+// compiled-in descriptors that indexes the fast caches - but a cache index computed from fewer
+// address bits than the range check uses would fold some of them into the window. The batch runs
+// first in a fresh process: it makes run-time struct types (and their pointer types) until the
+// heap has grown across every address whose low 32 bits lie inside the window, touches every
+// compiled-in type of the population, and drives each "low-bits-in-window" run-time type through
+// Marshal and Unmarshal. Self-identifying member names decide the result; the cache hooks report
+// any slot or decoder object shared by two descriptors.
+func c14HeapWindow(c *rt.Ctx) {
+	if !c.Cur(0, "shapes=core\nheap descriptors whose low address bits fall into the cache window") {
+		return
+	}
+	eb, em, _, _ := gojson.VerifEncTypeAddr()
+	db, dm, _, _ := gojson.VerifDecTypeAddr()
+	lo, hi := eb, em
+	if db < lo {
+		lo = db
+	}
+	if dm > hi {
+		hi = dm
+	}
+	inWin := func(a uintptr) bool { l := a & 0xffffffff; return l >= lo && l <= hi }
+	for _, e := range zoo14.All {
+		rt.Guard(func() { gojson.Unmarshal([]byte(`{}`), e.New()); gojson.Marshal(e.Val(1)) })
+	}
+	type rtType struct {
+		k int
+		t reflect.Type
+	}
+	var win []rtType
+	limit := 150000
+	if c.Tier == "thorough" {
+		limit = 400000
+	}
+	made := 0
+	var maxLow, minLow uintptr = 0, ^uintptr(0)
+	for k := 0; k < limit && len(win) < 4000; k++ {
+		t := reflect.StructOf([]reflect.StructField{{Name: "R", Type: reflect.TypeOf(0), Tag: reflect.StructTag(fmt.Sprintf(`json:"hw%d"`, k))}})
+		pt := reflect.PointerTo(t)
+		made++
+		a, pa := typeAddrOf(reflect.Zero(t).Interface()), typeAddrOf(reflect.Zero(pt).Interface())
+		for _, x := range []uintptr{a, pa} {
+			if l := x & 0xffffffff; x>>32 != 0 {
+				if l > maxLow {
+					maxLow = l
+				}
+				if l < minLow {
+					minLow = l
+				}
+			}
+		}
+		if inWin(a) || inWin(pa) {
+			win = append(win, rtType{k, t})
+		}
+	}
+	c.Obs("heap_descriptors_created", int64(2*made))
+	c.Obs("heap_descriptors_with_low_bits_in_window", int64(len(win)))
+	c.SetAdd("heap_window", fmt.Sprintf("window low32 [%#x,%#x]; heap descriptors' low32 span [%#x,%#x]", lo, hi, minLow, maxLow))
+	for i, w := range win {
+		v := reflect.New(w.t)
+		want := fmt.Sprintf(`{"hw%d":%d}`, w.k, w.k+7)
+		var err error
+		pan, msg, _ := rt.Guard(func() { err = gojson.Unmarshal([]byte(want), v.Interface()) })
+		c.Eval(1)
+		if pan || err != nil || v.Elem().Field(0).Int() != int64(w.k+7) {
+			c.Violate(rt.Violation{Monitor: "self-ident", Entry: "heap-window", Kind: "decoded-by-foreign-program", Ctx: "structof", Detail: fmt.Sprintf("run-time type %d: %v %v %s", w.k, v.Elem().Interface(), err, msg), Sub: i})
+		}
+		var b []byte
+		pan, msg, _ = rt.Guard(func() { b, err = gojson.Marshal(v.Elem().Interface()) })
+		if pan || err != nil || string(b) != want {
+			c.Violate(rt.Violation{Monitor: "self-ident", Entry: "heap-window", Kind: "encoded-by-foreign-program", Ctx: "structof", Detail: fmt.Sprintf("run-time type %d: got %s (%v %s) want %s", w.k, b, err, msg, want), Sub: i})
+		}
+		pan, msg, _ = rt.Guard(func() { b, err = gojson.Marshal(v.Interface()) })
+		c.Eval(2)
+		if pan || err != nil || string(b) != want {
+			c.Violate(rt.Violation{Monitor: "self-ident", Entry: "heap-window", Kind: "encoded-by-foreign-program", Ctx: "ptr-structof", Detail: fmt.Sprintf("run-time type %d: got %s (%v %s) want %s", w.k, b, err, msg, want), Sub: i})
+		}
+	}
+	// the compiled-in types again, after the run-time types had their turn
+	for i, e := range zoo14.All {
+		if i%7 == 0 || len(zoo14.All) < 200 {
+			c14Check(c, 100000+i, e, "after-heap-types")
+		}
+	}
+	c14Drain(c, 7)
+	c.NonTrivialEnum(int64(len(win)))
+	c.Sample(map[string]any{"family": "heap descriptors aliasing the cache window", "created": 2 * made, "low_bits_in_window": len(win)})
+}
+
 func c14Drain(c *rt.Ctx, sub int) {
 	es, er := gojson.VerifEncCacheTake()
 	ds, dr := gojson.VerifDecCacheTake()
@@ -148,9 +237,16 @@ func init() {
 		ID:    "C14",
 		Setup: func(c *rt.Ctx) { gojson.VerifCacheArm(true) },
 		NumBatches: func(tier string, seed int64) int {
-			return (len(zoo14.All) + per - 1) / per
+			return (len(zoo14.All)+per-1)/per + 1
 		},
 		Run: func(c *rt.Ctx) {
+			if c.Idx == 0 {
+				// first in its (fresh) worker process
+				c14HeapWindow(c)
+				return
+			}
+			c.Idx--
+			defer func() { c.Idx++ }()
 			// the order in which types are first used follows the seed
 			order := rand.New(rand.NewSource(c.Seed)).Perm(len(zoo14.All))
 			lo, hi := c.Idx*per, (c.Idx+1)*per
